@@ -36,3 +36,55 @@ package method_evaluator
 //@   ensures[C14] len(result) == len(defineArgs) + len(namedDefineArgs) && len(result) == len(definedArgNames)
 //@   ensures[C14] sortedStrings(result, len(defineArgs))
 //@   loop 0 invariant -1 <= rangeindex && rangeindex < len(definedArgNames) && len(namedDefineArgs) + len(defineArgs) == rangeindex + 1
+
+//@ # ---- C01: the strategies index the evaluated argument list; a call without arguments must not crash ----
+//@ # (claimed: index and slice bounds in the function's own code; nil-ness of the evaluator's fields and
+//@ # the callees' own panics are not part of this claim)
+//@ func (*ti/eval/method_evaluator.replaceArraystrategy).evaluate
+//@   safe idx,slice
+//@   inline 2 1
+//@   witness idx#0 "a = [1]\na.replace"
+
+//@ func (*ti/eval/method_evaluator.addArrayStrategy).evaluate
+//@   safe idx,slice
+//@   inline 2 1
+//@   witness idx#0 "a = [1]\na + "
+
+//@ func (*ti/eval/method_evaluator.arrayAppendStrategy).evaluate
+//@   safe idx,slice
+//@   inline 2 1
+
+//@ func (*ti/eval/method_evaluator.concatArraystrategy).evaluate
+//@   safe idx,slice
+//@   inline 2 1
+
+//@ func (*ti/eval/method_evaluator.unshiftArraystrategy).evaluate
+//@   safe idx,slice
+//@   inline 2 1
+
+//@ func (*ti/eval/method_evaluator.sliceArrayStrategy).evaluate
+//@   requires m != nil && wfP(m.parser)
+//@   safe idx,slice
+//@   inline 2 1
+
+//@ func (*ti/eval/method_evaluator.hashMergeStrategy).evaluate
+//@   safe idx,slice
+//@   inline 2 1
+//@   witness idx#0 "h = {a: 1}\nh.merge do |a|\nend"
+
+//@ func (*ti/eval/method_evaluator.hashDestructionMergeStrategy).evaluate
+//@   safe idx,slice
+//@   inline 2 1
+//@   witness idx#0 "h = {a: 1}\nh.merge! do |k, a, b|\n  a\nend"
+
+//@ func (*ti/eval/method_evaluator.hashShiftStrategy).evaluate
+//@   safe idx,slice
+//@   inline 2 1
+
+//@ func (*ti/eval/method_evaluator.kernelYieldStrategy).evaluate
+//@   safe idx,slice
+//@   inline 2 1
+
+//@ func (*ti/eval/method_evaluator.kernelPrintStrategy).evaluate
+//@   safe idx,slice
+//@   inline 2 1
